@@ -62,6 +62,17 @@ def make_case(seed):
                             meta['classes'] = list(meta['classes']) + ['invalid-utf8']
                     new.append((k, t))
                 h.lines = new
+    if r2.random() < 0.02 and d.sections and d.sections[0].hunks:
+        # lines of thousands of tokens (minified code), no length limit: a removed and an added line whose comparison would need
+        # too large a table are not compared - and are still shown, each once
+        nt = r2.choice([2200, 4200])
+        m = ' '.join('w%d' % i for i in range(nt))
+        p0 = ' '.join('v%d' % i for i in range(nt))
+        p1 = ' '.join('w%d' % i for i in range(r2.choice([300, 900])))
+        d.sections[0].hunks[0].lines = [('-', m), ('+', p0), ('+', p1), (' ', 'ctx after the long lines')]
+        opts['--max-line-length'] = 0
+        meta['max_line_length'] = 0
+        meta['classes'] = list(meta['classes']) + ['many-tokens']
     mode = 'pty' if rng.random() < 0.15 else 'pipe'
     if mode == 'pty' and '--dark' not in opts and '--light' not in opts:
         opts['--dark'] = True
